@@ -36,6 +36,8 @@ def configs(tier, seed):
             if wt == "restricted" and (thorough or entry in ("ad", "ad_norot")):
                 # spatially symmetric ring: exactly degenerate one-body levels
                 out.append(dict(wt=wt, entry=entry, n_steps=1, n_ene=1, n_sr=1, seed=seed, tier=tier, limit="symmetric"))
+                # near-degenerate OCCUPIED pair (gap ~1e-8 << the eigh rule's threshold) with a two-body term
+                out.append(dict(wt=wt, entry=entry, n_steps=1, n_ene=1, n_sr=1, seed=seed, tier=tier, limit="neardeg"))
     if thorough:
         for wt in ("restricted", "unrestricted"):
             out.append(dict(wt=wt, entry="ad_1", n_steps=1, n_ene=1, n_sr=1, seed=seed, tier=tier, limit="full"))
@@ -77,6 +79,10 @@ def job(cfg):
     if cfg["limit"] == "symmetric":
         sysd = samplers.symmetric_system(4, 2.0)
         n, na, nb = 4, 1, 1
+    if cfg["limit"] == "neardeg":
+        sysd = samplers.near_degenerate_system()
+        n, na, nb = 3, 2, 2
+        res.guard("near_degenerate_occupied_pair_gap_below_threshold", 1)
     nchol = len(sysd["chol"])
     if onebody:
         sysd = dict(sysd)
@@ -143,6 +149,24 @@ def job(cfg):
     def primal(c, op, pd):
         return wrapper(c, op, pd)[0]
 
+    @jax.jit
+    def ref_coupled(c, op, pd):
+        """The same block on the Hamiltonian h1 + c*O assembled through the PUBLIC route of the driver (optimize for the
+        orbital-relaxing entries, build_measurement_intermediates, then build_propagation_intermediates) and run by
+        the plain sampler (entries with reconfiguration) or by the no-relaxation entry at zero coupling (entries without)."""
+        hd2 = {k: hd[k] for k in ("h0", "h1", "chol", "ene0")}
+        hd2["h1"] = hd2["h1"] + c * op
+        wd2 = dict(wd)
+        if entry in ("ad", "ad_nosr"):
+            wd2 = trial.optimize(dict(hd2), wd2)
+        hd2 = ham.build_measurement_intermediates(hd2, trial, wd2)
+        hd2 = ham.build_propagation_intermediates(hd2, prop, trial, wd2)
+        if entry in ("ad", "ad_norot"):
+            return samp.propagate_phaseless(ham, hd2, prop, pd, trial, wd2)[0]
+        # without reconfiguration: the no-relaxation entry at zero coupling on the pre-assembled data (the relaxing entry
+        # would optimise a second time)
+        return samp.propagate_phaseless_ad_nosr_norot(ham, hd2, 0.0, 0.0 * op, prop, pd, trial, wd2)[0]
+
     plain = None
     if entry in ("ad", "ad_norot"):
         plain = lambda pd: samp.propagate_phaseless(ham, hd, prop, pd, trial, wd)[0]
@@ -176,6 +200,14 @@ def job(cfg):
                 ep = float(primal(h, opj, pd))
                 em = float(primal(-h, opj, pd))
                 fds.append((ep - em) / (2 * h))
+                if h == 1e-3:
+                    # (d) the coupling enters ONLY as h1 + c*O: same energy as the publicly assembled coupled Hamiltonian
+                    e_ref = float(ref_coupled(h, opj, pd))
+                    res.add(transitions=1, evaluations=1)
+                    res.guard("coupled_hamiltonian_compared", 1)
+                    if not abs(ep - e_ref) <= 1e-9 * max(1.0, abs(e_ref)):
+                        res.violation(sig + "/primal-at-coupling-vs-public-route", dict(case, obs=ol, what="coupled"),
+                                      dict(entry_energy=ep, public_route_energy=e_ref, coupling=h))
             res.add(transitions=4)
             smooth = abs(fds[0] - fds[1]) <= 2e-5 * max(1.0, abs(fds[1]))
             if not smooth:
@@ -270,7 +302,7 @@ def run(ctx):
     ctx.assume("derivatives are linear in the observable, so the basis decides every observable")
     ctx.assume("finite-difference comparison only where the primal itself is smooth (two FD steps agree); skipped streams are counted")
     ctx.pmap(job, configs(ctx.tier, ctx.seed), tasks_per_child=2)
-    ctx.require_guard("fd_comparisons", "trace_checked", "onebody_response_checked", "plain_compared", "streams")
+    ctx.require_guard("fd_comparisons", "trace_checked", "onebody_response_checked", "plain_compared", "streams", "coupled_hamiltonian_compared")
 
 
 def replay(case):
